@@ -57,6 +57,8 @@ func piecesGen(args []string) {
 	var rows []N
 	for i := 0; i < *n; i++ {
 		g := ast.NewGen(r, 70)
+		// incremental histories end at the first failing piece that also declares names: keep most pieces well typed
+		g.IllTyped = 60
 		prog := g.Program(*depth)
 		for len(prog) < 3 {
 			prog = append(prog, g.Program(*depth)...)
@@ -98,6 +100,61 @@ func piecesGen(args []string) {
 			globals = append(globals, nm)
 		}
 		rows = append(rows, N{"id": i, "pieces": pieces, "globals": globals, "forward": false})
+	}
+	// global-sharing scenarios: functions defined in one piece read and write globals that other pieces
+	// assign before and after; every statement is a piece of its own
+	for i := 0; i < *n/3; i++ {
+		var sts []any
+		sts = append(sts, ast.Var("x", ast.Int(r.Intn(5))), ast.Var("y", ast.List(ast.Int(1))))
+		pool := func() N {
+			switch r.Intn(9) {
+			case 0:
+				return N{"k": "assign", "n": "x", "op": "=", "e": ast.Bin("+", ast.Id("x"), ast.Int(1+r.Intn(5)))}
+			case 1:
+				return N{"k": "assign", "n": "x", "op": "+=", "e": ast.Int(10)}
+			case 2:
+				return ast.ExprStmt(ast.Call(ast.Id("getx")))
+			case 3:
+				return ast.ExprStmt(ast.Call(ast.Id("incx")))
+			case 4:
+				return ast.ExprStmt(ast.Call(ast.Attr(ast.Id("y"), "append"), ast.Id("x")))
+			case 5:
+				return ast.ExprStmt(ast.Call(ast.Id("leny")))
+			case 6:
+				return N{"k": "assign", "n": "y", "op": "=", "e": ast.List(ast.Id("x"), ast.Int(7))}
+			case 7:
+				return ast.Print(ast.Id("x"), ast.Call(ast.Id("getx")), ast.Call(ast.Id("leny")))
+			default:
+				return ast.ExprStmt(ast.List(ast.Id("x"), ast.Call(ast.Id("getx")), ast.Id("y")))
+			}
+		}
+		fn := func(name string, body ...any) N {
+			return N{"k": "funcdecl", "hoisted": true, "f": N{"k": "func", "name": name, "params": []any{}, "body": body}}
+		}
+		defs := []N{
+			fn("getx", ast.ExprStmt(ast.Id("x"))),
+			fn("incx", N{"k": "assign", "n": "x", "op": "+=", "e": ast.Int(1)}, ast.ExprStmt(ast.Id("x"))),
+			fn("leny", ast.ExprStmt(ast.Call(ast.Id("len"), ast.Id("y")))),
+		}
+		// interleave definitions with uses that come after all three are defined
+		for _, d := range defs {
+			sts = append(sts, d)
+			if r.Intn(2) == 0 {
+				sts = append(sts, N{"k": "assign", "n": "x", "op": "=", "e": ast.Bin("+", ast.Id("x"), ast.Int(1))})
+			}
+		}
+		for k, m := 0, 3+r.Intn(6); k < m; k++ {
+			sts = append(sts, pool())
+		}
+		var pieces []N
+		for _, st := range sts {
+			one := []any{st}
+			pieces = append(pieces, N{"kind": "code", "ast": one, "hoist": hoistNames(one), "declares": len(declaredNames(one)) > 0, "src": ast.Render(one)})
+			if r.Intn(6) == 0 {
+				pieces = append(pieces, rejectedPiece(r, []string{"x"}))
+			}
+		}
+		rows = append(rows, N{"id": len(rows), "pieces": pieces, "globals": []any{"x", "y"}, "forward": false})
 	}
 	reqs := make([]N, len(rows))
 	for i, c := range rows {
